@@ -852,6 +852,18 @@ impl XmlNode {
 
 // -----------------------------------------------------------------------------------------------
 
+/// Two nodes belong to the same document only if it is the very same document object: a
+/// different document with equal content is still a different document.
+fn same_document(a: &Option<XmlDocument>, b: &Option<XmlDocument>) -> bool {
+    match (a, b) {
+        (Some(a), Some(b)) => Rc::ptr_eq(&a.document, &b.document),
+        (None, None) => true,
+        _ => false,
+    }
+}
+
+// -----------------------------------------------------------------------------------------------
+
 pub trait AsNode {
     fn as_node(&self) -> XmlNode;
 }
@@ -1193,12 +1205,12 @@ impl NodeMut for XmlDocument {
         new_child: XmlNode,
         ref_child: Option<&XmlNode>,
     ) -> error::Result<XmlNode> {
-        if Some(self.clone()) != new_child.owner_document() {
+        if !same_document(&Some(self.clone()), &new_child.owner_document()) {
             return Err(error::DomException::WrongDocumentErr)?;
         }
 
         let value = if let Some(r) = ref_child {
-            if Some(self.clone()) != r.owner_document() {
+            if !same_document(&Some(self.clone()), &r.owner_document()) {
                 return Err(error::DomException::WrongDocumentErr)?;
             }
 
@@ -1222,7 +1234,7 @@ impl NodeMut for XmlDocument {
     }
 
     fn remove_child(&self, old_child: &XmlNode) -> error::Result<XmlNode> {
-        if Some(self.clone()) != old_child.owner_document() {
+        if !same_document(&Some(self.clone()), &old_child.owner_document()) {
             return Err(error::DomException::WrongDocumentErr)?;
         }
 
@@ -1594,12 +1606,12 @@ impl NodeMut for XmlAttr {
         new_child: XmlNode,
         ref_child: Option<&XmlNode>,
     ) -> error::Result<XmlNode> {
-        if self.owner_document() != new_child.owner_document() {
+        if !same_document(&self.owner_document(), &new_child.owner_document()) {
             return Err(error::DomException::WrongDocumentErr)?;
         }
 
         let value = if let Some(r) = ref_child {
-            if self.owner_document() != r.owner_document() {
+            if !same_document(&self.owner_document(), &r.owner_document()) {
                 return Err(error::DomException::WrongDocumentErr)?;
             }
 
@@ -1623,7 +1635,7 @@ impl NodeMut for XmlAttr {
     }
 
     fn remove_child(&self, old_child: &XmlNode) -> error::Result<XmlNode> {
-        if self.owner_document() != old_child.owner_document() {
+        if !same_document(&self.owner_document(), &old_child.owner_document()) {
             return Err(error::DomException::WrongDocumentErr)?;
         }
 
@@ -1775,7 +1787,7 @@ impl ElementMut for XmlElement {
     }
 
     fn set_attribute_node(&self, new_attr: XmlAttr) -> error::Result<Option<XmlAttr>> {
-        if self.owner_document() != new_attr.owner_document() {
+        if !same_document(&self.owner_document(), &new_attr.owner_document()) {
             return Err(error::DomException::WrongDocumentErr)?;
         }
 
@@ -1899,12 +1911,12 @@ impl NodeMut for XmlElement {
         new_child: XmlNode,
         ref_child: Option<&XmlNode>,
     ) -> error::Result<XmlNode> {
-        if self.owner_document() != new_child.owner_document() {
+        if !same_document(&self.owner_document(), &new_child.owner_document()) {
             return Err(error::DomException::WrongDocumentErr)?;
         }
 
         let value = if let Some(r) = ref_child {
-            if self.owner_document() != r.owner_document() {
+            if !same_document(&self.owner_document(), &r.owner_document()) {
                 return Err(error::DomException::WrongDocumentErr)?;
             }
 
@@ -1928,7 +1940,7 @@ impl NodeMut for XmlElement {
     }
 
     fn remove_child(&self, old_child: &XmlNode) -> error::Result<XmlNode> {
-        if self.owner_document() != old_child.owner_document() {
+        if !same_document(&self.owner_document(), &old_child.owner_document()) {
             return Err(error::DomException::WrongDocumentErr)?;
         }
 
